@@ -18,7 +18,7 @@ LEVEL = "exploration"
 MOD = "mc.props.c12"
 
 RADII = [0, -3, 1e-3, 1, 3, 10, 1e3]
-RADII_T = [0, -3, -0.5, 1e-4, 1e-3, 0.25, 1, 3, 7.5, 10, 100, 1e3, 1e4]
+RADII_T = [0, -3, -0.5, 1e-4, 1e-3, 0.25, 1, 3, 7.5, 10, 100, 1e3]
 ROTS_T = [0, 1e-3, 15, 30, 45, 60, 89.999, 90, 120, 135, 180, 225, 270, 315, 360, 400, 720.5, -30, -90, -359]
 ROTS = [0, 30, 45, 90, 135, 180, 270, 360, 400, -30]
 FLAGS = [(0, 0), (0, 1), (1, 0), (1, 1)]
@@ -93,8 +93,13 @@ def judge(start, rx, ry, rot, large, sweep, end, arc_to_cubic):
                 total += d
             prev_ang = ang
         p0 = tuple(p1)
-    if worst > RADIAL_TOL:
-        return "arc", f"cubic leaves the corrected ellipse by {worst:.3g} of the radius (> {RADIAL_TOL})", None
+    # double-precision conditioning: positions are divided by the smaller corrected radius when they are
+    # mapped into the unit-circle frame, so an error of a few ulps of the largest coordinate shows up
+    # multiplied by coordinate / radius (3.2e7 for a start at (-1000, 2000) and a radius of 6e-5)
+    cond = max(abs(start[0]), abs(start[1]), abs(end[0]), abs(end[1]), abs(cx), abs(cy), 1.0) / min(crx, cry)
+    tol = RADIAL_TOL + 1e-13 * cond
+    if worst > tol:
+        return "arc", f"cubic leaves the corrected ellipse by {worst:.3g} of the radius (> {tol:.3g})", None
     if not ill and abs(total - dth) > 2e-3:
         return "arc", f"swept angle {total:.5f} rad, flags select {dth:.5f} rad", None
     return "arc", None, "arc"
@@ -189,7 +194,7 @@ def run(run):
         "for coincident end points. Non-trivial = proper arc or line case that the implementation returned segments for (distinct argument tuples)."
     )
     run.cov["bounds"] = {"radii": RADII if run.tier == "quick" else RADII_T, "rotations": ROTS if run.tier == "quick" else ROTS_T, "end_lattice": len(ends(run.tier, run.seed)), "seed_phase": run.seed % 4}
-    run.assumptions = ["total-angle check skipped when the selected extent is within 1e-6 of 0 or 2*pi (ill-conditioned)"]
+    run.assumptions = ["total-angle check skipped when the selected extent is within 1e-6 of 0 or 2*pi (ill-conditioned)", "radial tolerance 3e-4 + 1e-13 * (largest coordinate / smaller corrected radius) to allow for double-precision conditioning; radii range over 7 orders of magnitude (1e-4..1e3); beyond an aspect ratio of about 1e7 the comparison itself is dominated by double-precision noise (measured 3.03e-4 at 1e8, 3.4e-4 at 1e12)"]
     run.floor_nt = 1000
     run.run_cases(MOD, cases(run.tier, run.seed), chunk=2)
 
